@@ -16,7 +16,6 @@ CLAIMS = {
  "C16": ("mapgraph", "FromIterator / From<[_;N]> / Extend modelled as the code's loop of inserts and checked by TLC against the fold of ideal inserts for all class sequences of length 0..N+2; replay with a recording source iterator."),
  "C18": ("mapgraph", "UncheckedAgrees (insert_i == insert_ii slot for slot inside the contract) and DisjointAgrees invariants; all contract-satisfying instances replayed against the real unsafe methods."),
  "C19": ("mapgraph", "The model supplies the entry sequence to be rendered (containers) and the not-yet-yielded entries (every cursor kind at every prefix); replay compares the real Debug/Display output with std's rendering of the observed sequence and the listed entries with the model."),
-}
  "C06": ("mapgraph+pairgraph", "Frame condition of the model (no operation touches a heap) bound to the code by a counting global allocator armed around every container call of every replayed transition (single-container and pair graphs), address checks on every returned reference, and a build probe reading the crates the no_std library links against."),
  "C08": ("pairgraph", "AlgebraIsMath invariant on the transcribed lazy adaptors (exact mathematical result, no repeats, left-operand objects, size_hint brackets at every prefix, predicates) over every pair of slot layouts; replay of every (pair, op, prefix) with next / clone / Debug / fold cross-checked and operands re-observed unchanged."),
  "C14": ("pairgraph", "EqIsExtensional invariant (eq.rs transcription == extensional equality, reflexive, symmetric) over all pairs of layouts and several capacity pairs; replay of a == b, b == a, a == a, b == b."),
